@@ -72,10 +72,29 @@ def r_pad(p):
         cN(p["owner"]), cN(p["ctr"]), cN(_did(p["data"])), cN(p.get("enc", 0)), sig)
 
 
+def tx_fields(t):
+    return (t["owner"], list(t.get("parents", [])), t["content"], [list(o) for o in t.get("outputs", [])])
+
+
+def tx_signed_fields(t):
+    """the fields the signature was made over (defaults: the transaction's own)"""
+    s = t["sig"]
+    o, ps, c, outs = tx_fields(t)
+    return (s.get("owner", o), list(s.get("parents", ps)), s["content"], [list(x) for x in s.get("outputs", outs)])
+
+
+def r_msg(f):
+    o, ps, c, outs = f
+    return "(tx_msg %s %s %s %s)" % (cN(o), clist([cN(x) for x in ps]), cN(c),
+                                     clist(["(%s, %s)" % (cN(k), cN(v)) for k, v in outs]))
+
+
 def r_tx(t):
     s = t["sig"]
-    sig = "TSJunk" if isinstance(s, str) else "(TSBy %s %s)" % (cN(s["by"]), cN(s["content"]))
-    return "{| t_owner := %s; t_content := %s; t_sig := %s |}" % (cN(t["owner"]), cN(t["content"]), sig)
+    sig = "TSJunk" if isinstance(s, str) else "(TSBy %s %s)" % (cN(s["by"]), r_msg(tx_signed_fields(t)))
+    o, ps, c, outs = tx_fields(t)
+    return "{| t_owner := %s; t_parents := %s; t_content := %s; t_outputs := %s; t_sig := %s |}" % (
+        cN(o), clist([cN(x) for x in ps]), cN(c), clist(["(%s, %s)" % (cN(k), cN(v)) for k, v in outs]), sig)
 
 
 def r_perm(p):
@@ -308,8 +327,11 @@ def pad_valid(p):
 
 
 def tx_valid(t):
+    """genuine = byte-identical to what its owner signed: signed by the owner's key over exactly these fields
+    (owner, every parent, content, every output's key and content); decided from the case spec, never by calling
+    Transaction::verify"""
     s = t["sig"]
-    return isinstance(s, dict) and s["by"] == t["owner"] and s["content"] == t["content"]
+    return isinstance(s, dict) and s["by"] == t["owner"] and tx_signed_fields(t) == tx_fields(t)
 
 
 def derived_name_of_stored(v):
@@ -379,14 +401,92 @@ def pad(owner, ctr, data=None, signer=None, sig="ok", enc=0):
     return {"t": "pad", "owner": owner, "ctr": ctr, "data": data, "enc": enc, "sig": s}
 
 
-def tx(owner, content, signer=None, sig="ok"):
+def norm_tx(t):
+    """canonical spec: no empty lists, no signature fields that merely repeat the transaction's own"""
+    t = copy.deepcopy(t)
+    for k in ("parents", "outputs"):
+        if not t.get(k):
+            t.pop(k, None)
+    if isinstance(t["sig"], dict):
+        own = {"owner": t["owner"], "parents": list(t.get("parents", [])), "outputs": [list(o) for o in t.get("outputs", [])]}
+        for k, v in own.items():
+            if k in t["sig"] and (list(t["sig"][k]) if isinstance(v, list) else t["sig"][k]) == v:
+                del t["sig"][k]
+            elif k in t["sig"] and isinstance(v, list):
+                t["sig"][k] = [list(x) if isinstance(x, (list, tuple)) else x for x in t["sig"][k]]
+    return t
+
+
+def tx(owner, content, signer=None, sig="ok", parents=(), outputs=()):
     if sig == "ok":
         s = {"by": owner if signer is None else signer, "content": content}
     elif sig == "stale":
         s = {"by": owner if signer is None else signer, "content": content + 1}
     else:
         s = "junk"
-    return {"t": "tx", "owner": owner, "content": content, "sig": s}
+    return norm_tx({"t": "tx", "owner": owner, "content": content, "parents": list(parents),
+                    "outputs": [list(o) for o in outputs], "sig": s})
+
+
+def tamper_tx(t, field, i=0):
+    """a signed transaction with one field rewritten AFTER signing (the signature stays the one made over the
+    original fields); field in owner | parent | content | out_key | out_content | sig-junk | sig-other-key"""
+    o, ps, c, outs = tx_fields(t)
+    g = copy.deepcopy(t)
+    g["parents"], g["outputs"] = list(ps), [list(x) for x in outs]
+    if isinstance(t["sig"], dict):
+        so, sps, sc, souts = tx_signed_fields(t)
+        g["sig"] = {"by": t["sig"]["by"], "owner": so, "parents": sps, "content": sc, "outputs": souts}
+    if field == "owner":
+        g["owner"] = o + 1
+    elif field == "parent":
+        g["parents"][i] = g["parents"][i] + 3
+    elif field == "parent-dropped":
+        del g["parents"][i]
+    elif field == "content":
+        g["content"] = c + 1
+    elif field == "out_key":
+        g["outputs"][i][0] += 3
+    elif field == "out_content":
+        g["outputs"][i][1] += 1
+    elif field == "out-dropped":
+        del g["outputs"][i]
+    elif field == "sig-junk":
+        g["sig"] = "junk"
+    elif field == "sig-other-key":
+        g["sig"]["by"] = o + 1
+    return norm_tx(g)
+
+
+def tx_tamper_cases():
+    """every field of a signed transaction (0..3 parents, 1..3 outputs) rewritten individually after signing:
+    owner, each parent, content, each output's key and each output's content, the signature; delivered alone, next
+    to the genuine one, onto a store already holding the genuine one, and as a paid upload"""
+    cs = []
+    for n in range(0, 4):
+        for m in range(1, 4):
+            genuine = tx(1, 2, parents=[2 + i for i in range(n)], outputs=[[4 + i, 1 + i] for i in range(m)])
+            fields = [("owner", 0), ("content", 0), ("sig-junk", 0), ("sig-other-key", 0)]
+            fields += [("parent", i) for i in range(n)] + [("parent-dropped", i) for i in range(min(n, 1))]
+            fields += [("out_key", i) for i in range(m)] + [("out_content", i) for i in range(m)]
+            fields += [("out-dropped", i) for i in range(1 if m > 1 else 0)]
+            for f, i in fields:
+                bad = tamper_tx(genuine, f, i)
+                key = {"owner": 1}
+                cs.append(case("tx-tamper", [delivery("repl", {"t": "txs", "list": [bad]}, key=key)]))
+                cs.append(case("tx-tamper", [delivery("repl", {"t": "txs", "list": [copy.deepcopy(genuine), bad]}, key=key)]))
+                cs.append(case("tx-tamper", [delivery("repl", {"t": "txs", "list": [bad]}, key=key)],
+                               store=[held({"t": "txs", "list": [copy.deepcopy(genuine)]})]))
+                d = delivery("client", bad, paid=True, key=key)
+                d["proof"] = good_proof(key)
+                cs.append(case("tx-tamper", [d]))
+                if f == "owner":
+                    # presented under the new owner's key as well
+                    cs.append(case("tx-tamper", [delivery("repl", {"t": "txs", "list": [bad]})]))
+            # control: the genuine transaction is accepted on both paths
+            cs.append(case("tx-genuine", [delivery("repl", {"t": "txs", "list": [copy.deepcopy(genuine)]})]))
+            cs.append(case("tx-genuine", [delivery("client", copy.deepcopy(genuine), paid=True)]))
+    return cs
 
 
 def reg(owner, meta, ops=(), perm="owner", osig=None):
